@@ -246,6 +246,9 @@ def sym_np():
         pi = math.pi
         complex128 = complex
         stack = staticmethod(np.stack)
+        concatenate = staticmethod(np.concatenate)
+        dtype = staticmethod(np.dtype)
+        newaxis = None
         binary_repr = staticmethod(np.binary_repr)
         mod = staticmethod(lambda a, b: a % b)
         result_type = staticmethod(lambda *a: object)
